@@ -53,6 +53,60 @@ def draw_doc(rng, entry, size_cap=300, structural=False, alphabet=V.PLAIN, chars
     raise last
 
 
+class MultiDoc(object):
+    """one interchange whose functional groups select different maps (same interchange version)"""
+
+    def __init__(self):
+        self.segs = []
+        self.ambiguous = 0
+        self.skipped = set()
+        self.shape = (1, 0, 0)
+        self.knobs = None
+        self.files = []
+
+
+def draw_multimap(rng, icvn, size_cap=120, structural=False, alphabet=V.PLAIN, charset='E', ngroups=None):
+    """-> MultiDoc: ISA, then 2..3 groups generated from different maps, IEA.  Raises docgen.Unsupported."""
+    ents = [e for e in entries() if e['icvn'] == icvn and e['file'] not in EXCLUDED_MAPS]
+    k = ngroups or rng.choice([2, 2, 3])
+    chosen = [rng.choice(ents) for _ in range(k)]
+    md = MultiDoc()
+    base = rng.randint(1, 9000)
+    for gi, entry in enumerate(chosen):
+        g = draw_doc(rng, entry, size_cap=max(25, size_cap // k), structural=structural, alphabet=alphabet, charset=charset,
+                     multi=(1, 1, rng.choice([1, 1, 2])))
+        segs = g.segs
+        if gi == 0:
+            md.segs.append(segs[0])
+            md.knobs = g.knobs
+        body = segs[1:-1]
+        for s in body:
+            # one interchange, group number gi+1; control numbers unique per group
+            s.inst = (('ISA_LOOP', 1), ('GS_LOOP', gi + 1)) + tuple(s.inst[2:])
+            if s.node.id == 'GS':
+                s.vals[5] = str(base + gi)
+            elif s.node.id == 'GE':
+                s.vals[1] = str(base + gi)
+        md.segs += body
+        if gi == k - 1:
+            iea = segs[-1]
+            iea.vals = [str(k), md.segs[0].vals[12]]
+            md.segs.append(iea)
+        md.ambiguous += g.ambiguous
+        md.skipped |= g.skipped
+        md.files.append(entry['file'])
+    for n, s in enumerate(md.segs):
+        s.line = n + 1
+    si = 0
+    for s in md.segs:
+        if s.node.id == 'ST':
+            si += 1
+        if s.set_index is not None:
+            s.set_index = si
+    md.shape = (1, k, 0)
+    return md
+
+
 def draw_delims(rng, icvn, segs, charset='E'):
     """delimiters absent from the data; component separator / repetition inside the declared charset"""
     data = set()
@@ -123,8 +177,15 @@ def draw_config(rng, text, allow_path=True):
             'clock': script, 'rand': [rng.randint(0, 10 ** 9) for _ in range(3)], 'reseed': rng.randint(0, 10 ** 6)}
 
 
+def file_of(node):
+    n = node
+    while n is not None and n.kind != 'map':
+        n = n.parent
+    return getattr(n, 'file', None)
+
+
 def truth_of(segs):
-    return [[g.node.path(), g.seg_count, g.set_index, g.node.id, getattr(g.node, 'uid', -1)] for g in segs]
+    return [[g.node.path(), g.seg_count, g.set_index, g.node.id, getattr(g.node, 'uid', -1), file_of(g.node)] for g in segs]
 
 
 def run(text, cfg, charset='E', log=None, callback=None, eof=None):
